@@ -423,8 +423,28 @@ fn gen_stream(gen: usize, rng: &mut Rng, enc: &mut Encoder, stream_hint: u32) ->
             out
         }
         3 => hostile_chunks(rng, enc.chunk_size),
+        6 => {
+            // more than 1024 tiny valid messages in one stream (loops with a bound per call)
+            let n = *rng.pick(&[1025usize, 1026, 1030, 1100, 2049, 2100]);
+            let mut out = Vec::new();
+            let mut ts = rng.u32() % 1000;
+            for i in 0..n {
+                ts = ts.wrapping_add(rng.below(30) as u32);
+                let m = match (i + rng.usize(0, 1)) % 4 {
+                    0 => Msg { type_id: 8, msid: stream_hint, ts, data: rng.bytes_in(0, 3) },
+                    1 => Msg { type_id: 9, msid: stream_hint, ts, data: rng.bytes_in(0, 3) },
+                    2 => Msg { type_id: 4, msid: 0, ts, data: { let mut d = vec![0u8, 6]; d.extend_from_slice(&(i as u32).to_be_bytes()); d } },
+                    _ => Msg { type_id: 3, msid: 0, ts, data: (i as u32).to_be_bytes().to_vec() },
+                };
+                let c = enc.random_choice(rng, sessprep::usual_csid(m.type_id), &m, true, false);
+                for ch in enc.encode(&m, &c) {
+                    out.extend(ch);
+                }
+            }
+            out
+        }
         4 | _ => {
-            let cfg = ForeignCfg { max_msgs: 10, max_len: 2000, max_chunks: 200, scs_pct: 10, nonminimal_ok: true };
+            let cfg = ForeignCfg { max_msgs: 10, max_len: 2000, max_chunks: 200, scs_pct: 10, nonminimal_ok: true, many_one_in: 0 };
             let f = foreign::gen_foreign(rng, &cfg);
             let mut w = f.wire();
             if gen == 4 {
